@@ -280,16 +280,27 @@ var verifBackup struct {
 	waits     int
 	readers   map[*bytes.Reader][]byte
 	cancelAt  int
+	mustUpload  bool
+	attempts    int
+	lastGoodGen uint64
+	readGen     uint64
 }
 
 func verifStubWriteGen(d *db.DB) uint64 {
+	assert("task-ends-when-context-is-cancelled", !verifBackupCancelNow)
 	// between two reads of the generation the task must have blocked in its wait (no spinning, no lock hammering)
 	assert("backup-task-blocks-between-generation-reads", verifBackup.waits >= verifBackup.genCalls)
+	if verifBackup.genCalls > 0 {
+		// a change not yet backed up (new write, write racing the last upload, failed upload) must trigger an attempt
+		assert("pending-change-triggers-upload-attempt", implies(verifBackup.mustUpload, verifBackup.attempts > 0))
+	}
 	verifBackup.genCalls++
 	// writes may have happened meanwhile
 	if nondetBool("db.written") {
 		verifBackup.curGen++
 	}
+	verifBackup.mustUpload = verifBackup.curGen != verifBackup.lastGoodGen
+	verifBackup.attempts = 0
 	ghostLog("backup.gen.read")
 	return verifBackup.curGen
 }
@@ -297,6 +308,9 @@ func verifStubWriteGen(d *db.DB) uint64 {
 func verifStubDBPath(d *db.DB) string { return "/state/setec.db" }
 
 func verifStubReadFileBackup(name string) ([]byte, error) {
+	verifBackup.attempts++
+	assert("no-upload-without-a-change-since-the-last-good-backup", verifBackup.mustUpload)
+	verifBackup.readGen = verifBackup.curGen
 	if nondetBool("readfile.fail") {
 		return nil, verifErrInjected
 	}
@@ -313,9 +327,13 @@ func verifStubBytesNewReader(b []byte) *bytes.Reader {
 
 func verifStubPutObject(c *s3.Client, ctx context.Context, in *s3.PutObjectInput, opts ...func(*s3.Options)) (*s3.PutObjectOutput, error) {
 	ghostLog("s3.put.call")
+	if nondetBool("db.written.during.upload") {
+		verifBackup.curGen++ // a write racing the upload
+	}
 	if nondetBool("s3.fail") {
 		return nil, verifErrInjected
 	}
+	verifBackup.lastGoodGen = verifBackup.readGen
 	rd, _ := in.Body.(*bytes.Reader)
 	verifBackup.uploads = append(verifBackup.uploads, verifBackup.readers[rd])
 	verifBackup.uploadGen = append(verifBackup.uploadGen, verifBackup.curGen)
@@ -334,15 +352,33 @@ type verifBackupCtx struct{ done bool }
 
 func (c *verifBackupCtx) Deadline() (time.Time, bool) { return time.Time{}, false }
 func (c *verifBackupCtx) Done() <-chan struct{} {
-	// cancellation may arrive at any moment
-	if !c.done {
-		c.done = nondetBool("ctx.cancelled")
-		if verifBackup.waits >= param("rounds") {
-			c.done = true // the server is eventually shut down
-		}
+	if !verifBackupDecided {
+		verifDecideCancel()
+	}
+	verifBackupDecided = false
+	if verifBackupCancelNow {
+		c.done = true
 	}
 	return envChan[struct{}]("ctx.done", c.done)
 }
+
+// cancellation may arrive during any wait; the server is eventually shut down.
+// The decision is taken once per wait by whichever of time.After / ctx.Done is evaluated first,
+// so that exactly one case of the select is ready.
+var verifBackupDecided, verifBackupCancelNow bool
+
+func verifDecideCancel() {
+	verifBackupDecided = true
+	if verifBackupCancelNow {
+		return
+	}
+	if verifBackup.waits > param("rounds") {
+		verifBackupCancelNow = true
+	} else {
+		verifBackupCancelNow = nondetBool("ctx.cancelled")
+	}
+}
+
 func (c *verifBackupCtx) Err() error {
 	if c.done {
 		return context.Canceled
@@ -360,7 +396,10 @@ func verifStubTimeAfter(d time.Duration) <-chan time.Time {
 	verifBackupLastWait = d
 	verifBackupClock += int64(d / time.Second)
 	ghostLog("backup.wait")
-	return envChan[time.Time]("time.after", true)
+	verifDecideCancel()
+	return envChan[time.Time]("time.after", !verifBackupCancelNow)
 }
 
 var verifBackupLastWait time.Duration
+
+var verifBackupAfter []bool
